@@ -67,6 +67,10 @@ type Opts struct {
 	// precedence carries the principal's real etype / salt / parameters, the others carry decoys (DecoyEtype, other salts)
 	HintSeq    []int32 `json:"preauth_hint_sequence,omitempty"`
 	DecoyEtype int32   `json:"decoy_etype,omitempty"`
+	// TGSETypes, when set: default_tgs_enctypes differs from default_tkt_enctypes (which stays ETypes)
+	TGSETypes []int32 `json:"default_tgs_enctypes,omitempty"`
+	// DefaultRealmElsewhere: default_realm names a realm that is not the client's (and has no KDC of its own)
+	DefaultRealmElsewhere bool `json:"default_realm_is_not_the_clients,omitempty"`
 	// ExtraAddresses, when set: noaddresses = false and extra_addresses = these (textual IPv4 / IPv6 addresses)
 	ExtraAddresses []string `json:"extra_addresses,omitempty"`
 	// UDPTooBig: every KDC answers KRB_ERR_RESPONSE_TOO_BIG over UDP, so that every exchange ends up on TCP
@@ -109,7 +113,11 @@ func ConfText(o Opts) string {
 		return "false"
 	}
 	var sb strings.Builder
-	fmt.Fprintf(&sb, "[libdefaults]\n default_realm = %s\n dns_lookup_kdc = false\n dns_lookup_realm = false\n", Realm)
+	defRealm := Realm
+	if o.DefaultRealmElsewhere {
+		defRealm = "ELSEWHERE.GOKRB5"
+	}
+	fmt.Fprintf(&sb, "[libdefaults]\n default_realm = %s\n dns_lookup_kdc = false\n dns_lookup_realm = false\n", defRealm)
 	if len(o.ExtraAddresses) > 0 {
 		fmt.Fprintf(&sb, " noaddresses = false\n extra_addresses = %s\n", strings.Join(o.ExtraAddresses, ","))
 	} else {
@@ -120,7 +128,14 @@ func ConfText(o Opts) string {
 		fmt.Fprintf(&sb, " renew_lifetime = %ds\n", int(o.RenewLifetime/time.Second))
 	}
 	fmt.Fprintf(&sb, " forwardable = %s\n proxiable = %s\n canonicalize = %s\n", b(o.Forwardable), b(o.Proxiable), b(o.Canonicalize))
-	fmt.Fprintf(&sb, " default_tkt_enctypes = %s\n default_tgs_enctypes = %s\n permitted_enctypes = %s\n", strings.Join(names, " "), strings.Join(names, " "), strings.Join(names, " "))
+	tgsNames := names
+	if len(o.TGSETypes) > 0 {
+		tgsNames = nil
+		for _, e := range o.TGSETypes {
+			tgsNames = append(tgsNames, etypeNames[e])
+		}
+	}
+	fmt.Fprintf(&sb, " default_tkt_enctypes = %s\n default_tgs_enctypes = %s\n permitted_enctypes = %s\n", strings.Join(names, " "), strings.Join(tgsNames, " "), strings.Join(names, " "))
 	fmt.Fprintf(&sb, " udp_preference_limit = %d\n", o.UDPLimit)
 	fmt.Fprintf(&sb, " preferred_preauth_types = %d\n", o.ETypes[0])
 	fmt.Fprintf(&sb, "[realms]\n %s = {\n", Realm)
@@ -164,7 +179,11 @@ func ExpectFor(o Opts) simkdc.Expect {
 			extra = append(extra, krbmsg.HostAddress{Type: 24, Addr: ip.To16()})
 		}
 	}
-	return simkdc.Expect{Check: true, ETypesAS: o.ETypes, ETypesTGS: o.ETypes, ASOptions: as, TGSOptions: tgs, TicketLifetime: o.TicketLifetime, RenewLifetime: o.RenewLifetime,
+	tgsET := o.ETypes
+	if len(o.TGSETypes) > 0 {
+		tgsET = o.TGSETypes
+	}
+	return simkdc.Expect{Check: true, ETypesAS: o.ETypes, ETypesTGS: tgsET, ASOptions: as, TGSOptions: tgs, TicketLifetime: o.TicketLifetime, RenewLifetime: o.RenewLifetime,
 		NoAddresses: len(extra) == 0, ExtraAddresses: extra, Skew: 5 * time.Minute, ClientName: UserNames(o)}
 }
 
@@ -210,6 +229,7 @@ func New(o Opts) *World {
 	svcEt := []int32{18, 17, 23, 16, 19, 20}
 	w.KDC.AddKeyPrincipal([]string{"HTTP", "host.test.gokrb5"}, svcEt)
 	w.KDC.AddKeyPrincipal([]string{"HTTP", "host2.test.gokrb5"}, svcEt)
+	w.KDC.AddKeyPrincipal([]string{"HTTP", "appserver"}, svcEt) // a host name no [domain_realm] entry matches
 	w.KDC.AddKeyPrincipal([]string{"kadmin", "changepw"}, svcEt)
 	w.Other.AddKeyPrincipal([]string{"HTTP", "host.other.gokrb5"}, svcEt)
 	// referral chain TEST -> R1 -> ... -> Rn, service HTTP/host.chain.gokrb5 lives in Rn
